@@ -66,12 +66,20 @@ theorem C05_load_errors (s : LoadSt) (r : Reader.Record) (e : LoadErr) (h : load
     e = .library ∨ (e = .typeError ∧ r.sec.name = .preamble) ∨ e = .readerOther :=
   loadRecord_errors s r e h
 
-/-- `readerOther` cannot come from records the streaming reader yields in
-hierarchy order (a preamble never follows a file; contents match their kind) -/
-theorem C05_load_no_other (env : Env) (cfg : Config) (wv : Text) (data : Bytes) :
-    Dom.fromBytes env cfg wv data ≠ .error .readerOther ∨
-      (Reader.readAll env cfg cfg.chunk data).2 = .assertion ∨ (Reader.readAll env cfg cfg.chunk data).2 = .outOfFuel :=
-  fromBytes_no_other env cfg wv data
+/-- `readerOther` cannot come from the loader when it is fed the records the
+streaming reader yields (they come in hierarchy order, so a preamble never
+follows a file, and their contents match their kind): `from_bytes` ends that way
+only when the streaming reader itself stopped on the `split_lines` assertion
+(an empty encoded newline, excluded by `Reader.NlNonempty`) -/
+theorem C05_load_no_other (env : Env) (cfg : Config) (wv : Text) (data : Bytes)
+    (h : Dom.fromBytes env cfg wv data = .error .readerOther) :
+    (Reader.readAll env cfg cfg.chunk data).2 = .assertion :=
+  fromBytes_no_other env cfg wv data h
+
+/-- … the loader proper never fails with `readerOther` on a reader's records -/
+theorem C05_load_no_other_records (env : Env) (cfg : Config) (data : Bytes) (t0 : Tree) :
+    (Reader.readAll env cfg cfg.chunk data).1.foldlM loadRecord ⟨t0, .main⟩ ≠ .error .readerOther :=
+  readAll_load_ne_other env cfg cfg.chunk data t0
 
 /-- **Known finding D14** (C06): a well-formed foreign file whose content header
 carries an option the writer has no parameter for loads fine but cannot be
